@@ -15,7 +15,16 @@ IMPORTS = "Units Grid System Engine EngineBuild AcceptC06 AcceptC05 AcceptC01 Ac
 
 
 def rand_chs(rng, n, ns):
-    """chemostat maps: none, global per species (never only species 0), per cell, arbitrary subsets"""
+    """chemostat maps: none, global per species (never only species 0), per cell, arbitrary subsets; a third of them with flags that
+    are integers other than 1 (the documentation itself sets `value=5`; overlapping 0/1 masks added together give 2): any non-zero
+    entry is a chemostat"""
+    fl = _rand_chs(rng, n, ns)
+    if rng.random() < 0.35:
+        return [rng.choice([1, 2, 3, 5]) if b else 0 for b in fl]
+    return fl
+
+
+def _rand_chs(rng, n, ns):
     mode = rng.choice(["subset", "subset", "species", "cell", "not_first"])
     if mode == "subset":
         return [rng.random() < 0.35 for _ in range(n * ns)]
@@ -301,7 +310,7 @@ def check(run):
     for it in it_t:
         it["gcase"], it["gobs"] = emit_traj(it["case"], it["obs"])
         run.count("traj:%s:%s" % (it["case"]["engine"], it["case"]["desc"]["space"]["type"]))
-        k = sum(it["case"]["chs"])
+        k = sum(1 for b in it["case"]["chs"] if b)
         run.count("traj_flagged:%s" % ("0" if k == 0 else "some" if k < len(it["case"]["chs"]) else "all"))
     for it in it_d:
         run.count("deriv:%s" % it["case"]["desc"]["space"]["type"])
